@@ -27,6 +27,12 @@ CLAIMED = {
     design_ref="DESIGN.md §5.19",
     note="Trusted: Coq kernel + VM; Model/M_Lookup.v + M_Resample.v transcription; astropy Tabular / np.interp are dependencies; Time and SkyCoord values are put on the 1/64 grid of the exact results (Time arithmetic and MJD interpolation carry up to ~1 microsecond); declared names / types / units are checked by the direct oracle only; 2-D (non-meshed) SkyCoord tables are not generated. Three known findings (sky-mesh-mixed-int, sky-step, q2-grid-shapes).",
     technique="Coq proof over hand-written Gallina model + vm_compute correspondence check"),
+ "C07": dict(
+    category="proof",
+    text="Coq theorems over a store model (objects = records of references to mutable cells; an operation builds a new record whose fields share the source's cell or are fresh): C07_step (one operation leaves every observable of every existing object unchanged), C07_history (any history of operations and queries, of ANY length, on any of the objects made so far), C07_write (writing into a field an operation built afresh never reaches an earlier object, whatever happened in between), C07_table_wellformed, C07_arithmetic_data_fresh (for arithmetic the data is such a field). Tied to /repo by comparing, on every cube-level step of random histories (<= 6 steps from slicing, crop, rebin, arithmetic, squeeze, explode, reproject, WCS unwrapping, sequence / index_as_cube / collection slicing, collection copy, queries asked twice, on cubes / sequences / collections with every mask / uncertainty / extra-coord kind, pre-sliced and pre-rebinned), the sharing table sig_of with the sharing measured by identity / np.shares_memory, plus a direct oracle that re-observes EVERY object made so far after every step (data, mask, uncertainty, unit, meta, world coordinates under wcs and extra coords, global coords, common axis, aligned axes) and writes into arithmetic results.",
+    design_ref="DESIGN.md §5.7",
+    note="Trusted: Coq kernel + VM; Model/M_Store.v (the sharing table is a transcription validated by measurement); in-place writes inside an operation cannot be predicted by the model and are caught only by the snapshots of the direct oracle; a change of sharing without an observable change is reported through the correspondence (no-failing-input-found).",
+    technique="Coq proof (invariant by induction over operation histories) over hand-written Gallina store model + vm_compute correspondence check"),
  "C17": dict(
     category="proof",
     text="Coq theorems for ANY number of cubes sharing one coordinate structure: C17_structure (common_axis_coords = one entry per coordinate object with a component on the common axis, each the concatenation in cube order of the object's slices along the common axis; includes the alignment of array_indices_for_world_objects with axis_world_coords), C17_length (as many entries as the cube-like length, ragged lengths included), C17_kth (entry k = cube j's coordinate at position i, (j,i) located by C12's index arithmetic), C17_entry (every entry of that slice is the WCS value at the pixel whose common-axis coordinate is i, whichever dimension of the coordinate array the common axis is), C17_sequence_axis_sound/complete (exactly the names on every cube, per-cube values in order). Tied to /repo by an exact correspondence check on sequences of 1-4 cubes over integer probe WCS with random correlation structures, grouped objects, linear extra coords, ragged common axes on any cube axis, user-added and slicing-produced global coords, plus a direct full-grid oracle incl. FITS TAN / rotated families.",
